@@ -45,8 +45,9 @@ def run_c02(ctx):
     runs = [("plan_seq", "plan_seq", {"MaxOps": 4 if thorough else 3, "DbRows": 2, "CoreFrom": 3 if thorough else 2})]
     if thorough:
         runs.append(("plan_seq_rows3", "plan_seq", {"MaxOps": 2, "DbRows": 3}))
-    # random longer sequences over the full menu
-    tr = plan_like(ctx, "C02", runs)
+    # thorough: random longer sequences (up to 7 operators) by simulation
+    sims = [("plan_seq_long", "plan_seq", {"MaxOps": 7, "DbRows": 1, "CoreFrom": 2}, "num=120", 8)] if thorough else None
+    tr = plan_like(ctx, "C02", runs, sims=sims)
     return {"exhaustive": True, "assumptions": ASSUME, "coverage": {
         "rule": "every sequence of up to MaxOps operators from a menu of 22 operator instances (where, project incl. renaming "
                 "and reordering, extend named/unnamed, summarize with and without keys / aggregates / trailing comma, sort with "
